@@ -1,4 +1,5 @@
 """C15 — expressions follow arithmetic rules; each column is evaluated on its own (static necessary conditions)."""
+import re
 from hirq import *  # noqa: F401,F403
 import oracles
 from core import Abort
@@ -335,6 +336,29 @@ def r6(ctx):
     ctx.covered("bracket decision of Display for Expr over (side, inner operator, outer operator), evaluated on the source by the finite interpreter",
                 n, distinct_keys=["%s" % s for s in sides], exhaustive=True)
 
+
+def r7(ctx):
+    """leaves of the key text cannot be confused: a text literal is written delimited (quotes), so that it never reads
+    like a column name (`'Name'` vs `name`), a function call or an arithmetic expression; only literals that cannot collide
+    (numbers, `*`) may be written bare"""
+    import extra
+    dh = ctx.anchor_hir(DISPLAY)
+    bad, bare, delimited = extra.literal_key_analysis(dh)
+    for c, why in bad:
+        ctx.violation("key/literal-bare", ctx.where(DISPLAY, c),
+                      "the text of a literal enters the expression text (cache / JSON / group key) undelimited (%s): the literal 'Name' and "
+                      "the column `name` get the same key, so `length('Name') + 1, length(name) + 1` share one cached value" % why)
+    for c in bare:
+        ctx.obligation(not any(c is b for b, _ in bad))
+    ok = bool(delimited) or not bare
+    ctx.obligation(ok)
+    if not ok and bare:
+        ctx.violation("key/literal-delimited", ctx.where(DISPLAY), "no delimited rendering of text literals in Display for Expr")
+    ctx.covered("renderings of literal values in the key text (bare only when numeric or `*`; otherwise delimited)", len(bare) + 1,
+                distinct_keys=["bare:%d" % len(bare), "delimited:%d" % len(delimited)])
+    ctx.floor(len(bare) + len(delimited), 1, "writes of the literal value in Display for Expr", DISPLAY)
+
+
 RULES = [
     ("C15-R1", "precedence layering, left association, brackets, unary minus in the parser", r1),
     ("C15-R2", "ArithmeticOp::calc table and operand order", r2),
@@ -342,6 +366,7 @@ RULES = [
     ("C15-R4", "unary minus is applied by every evaluator branch", r4),
     ("C15-R5", "cache write-through: the stored value is the returned (signed) value", r5),
     ("C15-R6", "the expression text brackets every operand whose omission would collide with another tree", r6),
+    ("C15-R7", "text literals are delimited in the expression text (cache key)", r7),
     ("X-LEXCLASS", "lexer operator / arithmetic character classes and context flags [shared]", lambda ctx: __import__("extra").lexer_classes(ctx)),
     ("X-VARIANT", "Variant constructors, text renderings and coercion order [shared]", lambda ctx: __import__("extra").variant_constructors(ctx)),
 ]
